@@ -5,6 +5,7 @@ import (
 	"fmt"
 	"strings"
 
+	"github.com/jsightapi/jsight-schema-core/notations/jschema"
 	"github.com/jsightapi/jsight-schema-core/notations/jschema/ischema"
 	"github.com/jsightapi/jsight-schema-core/notations/jschema/ischema/constraint"
 	"github.com/jsightapi/jsight-schema-core/openapi"
@@ -19,6 +20,7 @@ type c07Key struct {
 	Name     string `json:"name"`
 	Optional bool   `json:"optional,omitempty"`
 	Nested   bool   `json:"nested,omitempty"`
+	Empty    bool   `json:"empty,omitempty"` // the value is an empty object
 }
 
 type c07Type struct {
@@ -70,6 +72,10 @@ func (t *c07Type) text() string {
 			comma = ""
 		}
 		switch {
+		case k.Empty && k.Optional:
+			fmt.Fprintf(&b, "\t%q: {}%s // {optional: true}\n", k.Name, comma)
+		case k.Empty:
+			fmt.Fprintf(&b, "\t%q: {}%s\n", k.Name, comma)
 		case k.Nested && k.Optional:
 			fmt.Fprintf(&b, "\t%q: { // {optional: true}\n\t\t\"n\": 1\n\t}%s\n", k.Name, comma)
 		case k.Nested:
@@ -219,6 +225,7 @@ func c07Case(w *core.W, m *c07Model) {
 	var exErr error
 	var oasKeys []string
 	var inner []string
+	innerBy := map[string][]string{}
 	rec, site := guard(func() {
 		root, berr := buildProject(p)
 		if berr != nil {
@@ -245,7 +252,11 @@ func c07Case(w *core.W, m *c07Model) {
 					}
 				}
 			}
-			if on, ok := root.Inner.RootNode().(*ischema.ObjectNode); ok {
+			marks := func(js *jschema.JSchema) (out []string) {
+				on, ok := js.Inner.RootNode().(*ischema.ObjectNode)
+				if !ok {
+					return nil
+				}
 				req := map[string]bool{}
 				if rk, ok := on.Constraint(constraint.RequiredKeysConstraintType).(*constraint.RequiredKeys); ok && rk != nil {
 					for _, k := range rk.Keys() {
@@ -258,7 +269,16 @@ func c07Case(w *core.W, m *c07Model) {
 					if req[k] {
 						o = ""
 					}
-					inner = append(inner, fmt.Sprintf("%s%s<%s", k, o, c.InheritedFrom()))
+					out = append(out, fmt.Sprintf("%s%s<%s", k, o, c.InheritedFrom()))
+				}
+				return out
+			}
+			inner = marks(root)
+			// the registered types were compiled along with the root: their own trees
+			// carry the same marks (an ancestor's own property is nobody's heirloom)
+			for n, t := range root.UserTypeCollection {
+				if js, ok := t.(*jschema.JSchema); ok && js != root && js.Inner != nil {
+					innerBy[n] = marks(js)
 				}
 			}
 		}
@@ -327,6 +347,31 @@ func c07Case(w *core.W, m *c07Model) {
 		if parts[0] != k.Name+o || !okFrom {
 			fail("inherited-marks", fmt.Sprintf("property %d is %q (key?optional<InheritedFrom), expected %s%s from one of %v", i, inner[i], k.Name, o, rootM.from[k.Name]), map[string]string{"what": map[bool]string{true: "status", false: "origin"}[okFrom]})
 			return
+		}
+	}
+	// the same for the tree of every registered object type
+	for _, n := range names {
+		tm := memo[n]
+		got, ok := innerBy[n]
+		if !ok || n == "@root" || tm == nil || tm.err != "" || m.Types[n].Shape != "object" {
+			continue
+		}
+		if len(got) != len(tm.keys) {
+			fail("inherited-marks", fmt.Sprintf("compiled type %s has %v, expected %d keys", n, got, len(tm.keys)), map[string]string{"where": "type"})
+			return
+		}
+		for i, k := range tm.keys {
+			parts := strings.SplitN(got[i], "<", 2)
+			okFrom := false
+			for _, f := range tm.from[k.Name] {
+				if f == parts[1] {
+					okFrom = true
+				}
+			}
+			if !strings.HasPrefix(parts[0], k.Name) || !okFrom {
+				fail("inherited-marks", fmt.Sprintf("in the compiled type %s property %d is %q (key?optional<InheritedFrom), expected %s from one of %v", n, i, got[i], k.Name, tm.from[k.Name]), map[string]string{"where": "type", "what": "origin"})
+				return
+			}
 		}
 	}
 }
@@ -436,6 +481,7 @@ func c07Run(w *core.W) {
 	k := func(n string) c07Key { return c07Key{Name: n} }
 	ko := func(n string) c07Key { return c07Key{Name: n, Optional: true} }
 	kn := func(n string) c07Key { return c07Key{Name: n, Nested: true} }
+	ke := func(n string) c07Key { return c07Key{Name: n, Empty: true} }
 	obj := func(own []c07Key, allOf []string, ap string) *c07Type {
 		return &c07Type{Shape: "object", Own: own, AllOf: allOf, AP: ap}
 	}
@@ -473,7 +519,7 @@ func c07Run(w *core.W) {
 		}
 	}
 	as = append(as, &c07Type{Shape: "scalar"}, &c07Type{Shape: "array"})
-	for _, o := range [][]c07Key{{k("b1")}, {k("k2")}, {ko("b1"), kn("b2")}} {
+	for _, o := range [][]c07Key{{k("b1")}, {k("k2")}, {ko("b1"), kn("b2")}, {ke("b1"), k("b2")}} {
 		for _, al := range [][]string{nil, {"@c"}, {"@a"}} {
 			for _, ap := range []string{"", "false", `"string"`} {
 				if !w.Thorough() && ap == `"string"` {
@@ -484,7 +530,7 @@ func c07Run(w *core.W) {
 		}
 	}
 	bs = append(bs, &c07Type{Shape: "scalar"})
-	cs = []*c07Type{obj([]c07Key{k("c1")}, nil, ""), obj([]c07Key{k("k1")}, nil, "true"), obj([]c07Key{ko("c1")}, nil, "false"), {Shape: "scalar"}}
+	cs = []*c07Type{obj([]c07Key{k("c1")}, nil, ""), obj([]c07Key{k("k1")}, nil, "true"), obj([]c07Key{ko("c1")}, nil, "false"), obj([]c07Key{ke("c1"), k("c2")}, nil, ""), {Shape: "scalar"}}
 	var i int64
 	for _, r := range roots {
 		for _, a := range as {
